@@ -842,6 +842,8 @@ def property_statement(building, g, ctx=None):
                 v = float(deg) + float(mn) / 60.0
                 latlons.append((deg + h + mn, -v if h in "SWsw" else v))
     seen_latlon = {}
+    need_floats = {}
+    doclits = doc_literals()
     for where, f, ft in convs:
         for z in ints:
             got = call(f, str(z))
@@ -911,9 +913,99 @@ def property_statement(building, g, ctx=None):
                 got = call(f, lit)
                 if not same(got, lit):
                     return fail("c17-order-doc", where, lit, got, lit, "path text not kept as text")
+        # numeric-looking / dotted literals against the documented order written independently here
+        for lit in doclits:
+            want = doc_oracle(lit, ft, g)
+            got = call(f, lit)
+            if want is ValueError:
+                ok = isinstance(got, ValueError)
+            elif isinstance(want, tuple):
+                ok = type(got) is type(want) and tuple(got) == tuple(want)
+            else:
+                ok = same(got, want)
+            if not ok:
+                plain_float = type(want) is float and _re.match(r"^[-+]?[0-9.]+([eE][-+]?[0-9]+)?$", lit) is not None
+                key = "c17-float-roundtrip" if plain_float else "c17-order-doc"
+                return fail(key, where, lit, got, "ValueError" if want is ValueError else want,
+                            "not the value given by the documented conversion order "
+                            "(quoted, none/bool, path text = dotted identifiers, lat/lon, points, int 10, int 16, float, complex)")
+            if type(got) is float and where.startswith("need goal"):
+                need_floats[lit] = got
+    # a float in the need-goal chain is the same float as direct data unless it is documented path text
+    direct = building.Convert2StrBoolPathCoordPointNum
+    for lit, x in need_floats.items():
+        if _DOC_PATH.match(lit):
+            continue
+        got = call(direct, lit)
+        if not same(got, x):
+            return fail("c17-float-roundtrip", "direct data (Convert2StrBoolPathCoordPointNum)", lit, got, x,
+                        "a float literal of the need-goal context converts differently as direct data")
     if ctx is not None:
         ctx.extra["implementation_only_cases"] = ncase[0]
     return None
+
+
+# ---- the DOCUMENTED conversion order, written independently of the repo's regexes (search oracle)
+_ID = r"[A-Za-z_][A-Za-z0-9_]*"
+_DOC_PATH = _re.compile(r"^\.?%s(?:\.%s)*\.?$" % (_ID, _ID))      # path text: identifiers joined by dots
+_DOC_NUM = r"[-+]?[0-9]+(?:\.[0-9]*)?"
+_DOC_POINTS = [("Pxy", "Xx", "Yy", None, True), ("Pne", "Nn", "Ee", None, False), ("Pfs", "Ff", "Ss", None, False),
+               ("Pxyz", "Xx", "Yy", "Zz", False), ("Pned", "Nn", "Ee", "Dd", False), ("Pfsb", "Ff", "Ss", "Bb", False)]
+
+
+def doc_oracle(text, ft, g):
+    """value by the documented order: quoted, none/bool, path text, lat/lon, points, int 10, int 16, float,
+    complex -- restricted to the steps the converter has (ft).  Returns the value or the ValueError class."""
+    if "\n" in text:
+        return ValueError
+    if ft["quote"]:
+        for q in "\"'":
+            if len(text) >= 2 and text[0] == q and text[-1] == q and q not in text[1:-1]:
+                return text[1:-1]
+    if ft["bool"]:
+        low = "".join(chr(ord(c) + 32) if "A" <= c <= "Z" else c for c in text)
+        if low == "none":
+            return None
+        if low in ("true", "yes"):
+            return True
+        if low in ("false", "no"):
+            return False
+    if ft["path"] and _DOC_PATH.match(text):
+        return text
+    if ft["latlon"]:
+        for cls, sign in (("NEne,", 1.0), ("SWsw,", -1.0)):
+            m = _re.match(r"^([0-9]+)[%s]([0-9]+\.[0-9]+)$" % cls, text)
+            if m:
+                return sign * (float(m.group(1)) + float(m.group(2)) / 60.0)
+    if ft["point"]:
+        for cls, a, b, c, optfirst in _DOC_POINTS:
+            pat = "^(%s)%s[%s,](%s)[%s,]" % (_DOC_NUM, "?" if optfirst else "", a, _DOC_NUM, b)
+            if c:
+                pat += "(%s)[%s,]" % (_DOC_NUM, c)
+            m = _re.match(pat + "$", text)
+            if m:
+                if m.group(1) is None:
+                    return ValueError          # absent optional x: float('') raises
+                return getattr(g, cls)(*[float(x) for x in m.groups()])
+    for conv_ in (lambda t: int(t, 10), lambda t: int(t, 16), float, complex):
+        try:
+            return conv_(text)
+        except ValueError:
+            pass
+    return ValueError
+
+
+def doc_literals():
+    lits = [".5", "-.5", "+.5", ".5e2", ".5E-3", ".0", ".25e2", "0.5", "5.", "5.e2", "-5.", "+5.e-2", "1e-5", "1.5e+10",
+            "2E5", "1e5", "1E5", "1e+5", "12.5", "-0.25", "1_0.5", ".5_0", "._5", ".e5", ".E5", ".a5", "a.5", ".5a", "a.b5.",
+            "a.b", ".a.b.", "a..b", ".", "..", "5.a", "a5.b_", "_x", "x_", ".x.", "x..", "a.b.5", ".5.a", "5", "-5", "0x1f",
+            "fade", "ff", ".ff", "ff.", "e5", "E5", "inf", ".inf", "nan", "1j", ".5j", "1+.5j", "1n2.5", "1n2.5e", "1x.5y",
+            ".5x1y", "1,.5,", "1e2.5", "1E2.5", "1.e2.5"]
+    alpha = ".5ae-+_"
+    for n in range(0, 5):
+        for t in itertools.product(alpha, repeat=n):
+            lits.append("".join(t))
+    return lits
 
 
 def _case_variants(s):
